@@ -33,7 +33,16 @@ pub fn run(l: &[i128]) -> Vec<i128> {
     }
     let extra = &rest[5 * w..];
     let mut paint = Paint::default();
-    paint.set_color_rgba8(r, g, b, a);
+    if l[4..8].iter().any(|v| *v > 255) {
+        // a channel above 255 is the bit pattern of an f32 (Color::from_rgba), otherwise a byte
+        let ch = |v: i128| if v <= 255 { v as u8 as f32 / 255.0 } else { f32::from_bits(v as u32) };
+        match tiny_skia::Color::from_rgba(ch(l[4]), ch(l[5]), ch(l[6]), ch(l[7])) {
+            Some(c) => paint.set_color(c),
+            None => return vec![-3],
+        }
+    } else {
+        paint.set_color_rgba8(r, g, b, a);
+    }
     paint.blend_mode = MODES[mode];
     paint.anti_alias = aa;
     paint.force_hq_pipeline = hq;
